@@ -7,6 +7,19 @@ From WV Require Import Lib.Conc Model.ChanFlow.
 Import ListNotations.
 Local Open Scope Z_scope.
 
+Global Arguments Z.ltb : simpl never.
+Global Arguments Z.leb : simpl never.
+Global Arguments Z.eqb : simpl never.
+Global Arguments Z.max : simpl never.
+Global Arguments Z.min : simpl never.
+Global Arguments Z.add : simpl never.
+Global Arguments Z.sub : simpl never.
+Global Arguments Nat.ltb : simpl never.
+Global Arguments Nat.leb : simpl never.
+Global Arguments Nat.eqb : simpl never.
+Global Arguments Nat.add : simpl never.
+Global Arguments nth : simpl never.
+
 (* ---- L0: who holds outbuf_lock / requests_lock, with which depth --------- *)
 
 Definition io_holds (pc : iopc) : bool :=
@@ -76,7 +89,63 @@ Ltac split_ifs H :=
 
 Ltac ds s := destruct s as [total0 pending0 connected0 will_close0 cwf0 nreq0 olock0 ocount0 rlock0 pulled0 in_map0 sock_closed0 closed_bufs0 reading0 gone0 pending_in0 io0 wk0 wq0 wclose0 cur0 queued0 tailsA0 tailsB0 appended0 wire0 last_write0].
 
-Ltac unf := unfold to_top, wake_w, acq, rel, rdy_r, rdy_w, send_ok, io_flush_done, enter_io_flush, enter_hc, end_service, next_write, goto_append, fb_exit, fb_loop, w_flush_done, enter_flush, set_total, set_pending, set_connected, set_will_close, set_cwf, set_nreq, set_olock, set_ocount, set_rlock, set_pulled, set_in_map, set_sock_closed, set_closed_bufs, set_reading, set_gone, set_pending_in, set_io, set_wk, set_wq, set_wclose, set_cur, set_queued, set_tailsA, set_tailsB, set_appended, set_wire, set_last_write in *.
+Ltac unf := unfold enter_flush, w_flush_done, fb_loop, fb_exit, goto_append, next_write, end_service, enter_io_flush, io_flush_done, enter_hc, to_top, wake_w, acq, rel, send_ok, rdy_r, rdy_w in *.
 
 Lemma L0_init : L0 init.
 Proof. unfold L0, init; cbn; repeat split; reflexivity. Qed.
+
+Lemma w_cnt0 pc : w_holds pc = false -> w_cnt pc = 0%nat.
+Proof. destruct pc; cbn; try discriminate; try reflexivity; destruct c; cbn; congruence. Qed.
+
+Lemma io_cnt0 pc : io_holds pc = false -> io_cnt pc = 0%nat.
+Proof. destruct pc; cbn; try discriminate; try reflexivity; try (destruct k as [|[]|]; cbn; congruence); destruct m; cbn; congruence. Qed.
+
+Ltac rw := repeat match goal with
+  | H : w_holds ?x = _ |- context [w_holds ?x] => rewrite H
+  | H : r_w ?x = _ |- context [r_w ?x] => rewrite H
+  | H : io_holds ?x = _ |- context [io_holds ?x] => rewrite H
+  | H : r_io ?x = _ |- context [r_io ?x] => rewrite H
+  end.
+Ltac gifs := repeat match goal with |- context [if ?b then _ else _] => let E := fresh "G" in destruct b eqn:E end.
+Ltac hifs := repeat match goal with H : (if ?b then _ else _) = _ |- _ => let E := fresh "G" in destruct b eqn:E; try discriminate H end.
+Ltac dk := repeat match goal with k : hck |- _ => destruct k | m : fmode |- _ => destruct m | c : fctx |- _ => destruct c end.
+Ltac fin0 := dk; hifs; try discriminate; unfold L0; unf; cbn; rw; gifs; cbn; rw; repeat split;
+  try reflexivity; try assumption; try congruence;
+  try (rewrite w_cnt0 by assumption; reflexivity);
+  try (rewrite io_cnt0 by assumption; reflexivity);
+  try (cbn in *; congruence).
+
+Lemma L0_step_io p s r res s' l : L0 s -> step_io p s r res = Some (s', l) -> L0 s'.
+Proof.
+  intros H E. ds s. unfold L0 in H. cbn in H.
+  destruct H as (Ho & Hc & Hx & Hr & Hrx & Hio & Hw).
+  unfold step_io in E. cbn [ChanFlow.io] in E.
+  destruct io0; cbn in Ho, Hc, Hx, Hr, Hrx, Hio; subst olock0 ocount0 rlock0.
+  all: cbn in E; unf; cbn in E.
+  all: split_ifs E; try discriminate; try inv_some.
+  all: fin0.
+Qed.
+
+Lemma L0_step_w p s r s' l : L0 s -> step_w p s r = Some (s', l) -> L0 s'.
+Proof.
+  intros H E. ds s. unfold L0 in H. cbn in H.
+  destruct H as (Ho & Hc & Hx & Hr & Hrx & Hio & Hw).
+  unfold step_w in E. cbn [ChanFlow.wk] in E.
+  destruct wk0; cbn in Ho, Hc, Hx, Hr, Hrx, Hw; subst olock0 ocount0 rlock0.
+  all: cbn in E; unf; cbn in E.
+  all: split_ifs E; try discriminate; try inv_some.
+  all: fin0.
+Qed.
+
+Lemma L0_step p s c s' l : L0 s -> step p s c = Some (s', l) -> L0 s'.
+Proof.
+  destruct c as [r res|r|b|a]; cbn [step].
+  - apply L0_step_io.
+  - apply L0_step_w.
+  - intros H E. ds s. unfold step_tail in E. cbn in E.
+    split_ifs E; try discriminate; inv_some; exact H.
+  - intros H E. ds s. destruct a; cbn in E; split_ifs E; try discriminate; inv_some; exact H.
+Qed.
+
+Theorem L0_all p sched : L0 (run p sched).
+Proof. unfold run. apply invariant_rule. apply L0_init. intros; eapply L0_step; eauto. Qed.
